@@ -42,8 +42,17 @@ def retry_table(src, fname):
         if am.group(1) == "_": other = val
         elif am.group(2) == "ServerError": server = val
         elif val: other = True  # an explicit non-transport variant is retried
-    if re.sub(arm, "", rest).strip():
-        raise ExtractError(f"{fname}: unrecognised arm in is_retryable_error: `{re.sub(arm, '', rest).strip()[:120]}`")
+    left = re.sub(arm, "", rest).strip()
+    if left:
+        # an arm whose value is not a literal: a dangerous unknown form, not a harmless one. If it is
+        # about ServerError (e.g. `ServerError { code, .. } => matches!(code, …)`) some application
+        # errors are retried: pessimistic fact; the same for any other non-Io variant.
+        if re.match(r"RepeError::ServerError\b", left):
+            server = True
+        elif re.match(r"RepeError::\w+", left) or left.startswith("_"):
+            other = True if other is None else True
+        else:
+            raise ExtractError(f"{fname}: unrecognised arm in is_retryable_error: `{left[:120]}`")
     if other is None: raise ExtractError(f"{fname}: no `_ =>` arm")
     if server is None: server = other
     return kinds, server, other
@@ -115,10 +124,38 @@ def dead_kinds(path):
     return [km.group(1)] + (["BrokenPipe"] if km.group(1) != "BrokenPipe" else [])
 
 
+def refusal_kind(path):
+    """Kind of the error `register` refuses a call with once the connection is marked failed; None if
+    the client has no such refusal (its dead-connection error is the failed write)."""
+    ks = dead_kinds(path)
+    src = test_mod_cut(strip(read(path)))
+    return ks[0] if re.search(r"\bfailed\b", src) else None
+
+
+def health_form(src, fname):
+    flat = " ".join(fn_body(src, "health_check").split())
+    if "ensure_connected(" not in flat or "call_message_with_timeout(" not in flat:
+        raise ExtractError(f"{fname}: health_check does not connect and call")
+    return {"invalidateOnError": bool(re.search(r"Err\(\w+\) => \{ invalidate_client\(", flat)),
+            "singleAttempt": "max_attempts" not in flat and "_with_retry" not in flat}
+
+
+def node_timeout(src, fn, fname):
+    """The per-node timeout is what reaches the client call."""
+    flat = " ".join(fn_body(src, fn).split())
+    m = re.search(r"let (\w+) = \w+\.config\.timeout;", flat)
+    if not m: return False
+    t = m.group(1)
+    calls = re.findall(r"\.call_(?:json|message)_with_timeout\(([^;]*?)\)(?:\.await)?[;?\s}]", flat)
+    return bool(calls) and all(c.split(",")[-1].strip() == t for c in calls)
+
+
 def extract():
     facts = {}
     facts["deadKinds"] = dead_kinds("src/client.rs")
     facts["asyncDeadKinds"] = dead_kinds("src/async_client.rs")
+    facts["refusalKind"] = refusal_kind("src/client.rs")
+    facts["asyncRefusalKind"] = refusal_kind("src/async_client.rs")
     for key, path in (("", "src/fleet.rs"), ("async", "src/async_fleet.rs")):
         raw = read(path)
         src = test_mod_cut(strip(raw))
@@ -129,6 +166,8 @@ def extract():
         facts[nm("otherRetry")] = other
         facts[nm("loopJson")] = loop_form(src, "call_json_with_retry", path)
         facts[nm("loopMessage")] = loop_form(src, "call_message_with_retry", path)
+        facts[nm("healthForm")] = health_form(src, path)
+        facts[nm("nodeTimeout")] = node_timeout(src, "call_json_with_retry", path) and node_timeout(src, "call_message_with_retry", path)
         facts[nm("filter")] = filter_form(src, path)
         facts[nm("fanOutOverTargets")] = fan_out(src, path)
         facts.setdefault("where", {})[path] = {"is_retryable_error": line_of(raw, "fn is_retryable_error"),
@@ -156,12 +195,18 @@ def render(f):
          f"def loopMessage : LoopForm := {lf(f['loopMessage'])}",
          f"def asyncLoopJson : LoopForm := {lf(f['asyncLoopJson'])}",
          f"def asyncLoopMessage : LoopForm := {lf(f['asyncLoopMessage'])}",
+         f"def healthForm : HealthForm := ⟨{b(f['healthForm']['invalidateOnError'])}, {b(f['healthForm']['singleAttempt'])}⟩",
+         f"def asyncHealthForm : HealthForm := ⟨{b(f['asyncHealthForm']['invalidateOnError'])}, {b(f['asyncHealthForm']['singleAttempt'])}⟩",
+         f"def nodeTimeout : Bool := {b(f['nodeTimeout'])}",
+         f"def asyncNodeTimeout : Bool := {b(f['asyncNodeTimeout'])}",
          f"def filter : FilterForm := .{f['filter']}",
          f"def asyncFilter : FilterForm := .{f['asyncFilter']}",
          f"def fanOutOverTargets : Bool := {b(f['fanOutOverTargets'])}",
          f"def asyncFanOutOverTargets : Bool := {b(f['asyncFanOutOverTargets'])}",
          f"def deadKinds : List IoKind := {kinds(f['deadKinds'])}",
          f"def asyncDeadKinds : List IoKind := {kinds(f['asyncDeadKinds'])}",
+         "def refusalKind : Option IoKind := " + ("none" if f['refusalKind'] is None else f"some .{KINDS[f['refusalKind']]}"),
+         "def asyncRefusalKind : Option IoKind := " + ("none" if f['asyncRefusalKind'] is None else f"some .{KINDS[f['asyncRefusalKind']]}"),
          "def policy : Policy := ⟨retryableKinds, serverRetry, otherRetry, deadKinds.headD .brokenPipe⟩",
          "def asyncPolicy : Policy := ⟨asyncRetryableKinds, asyncServerRetry, asyncOtherRetry, asyncDeadKinds.headD .brokenPipe⟩",
          "end Repe.Gen.Fleet"]
